@@ -306,6 +306,50 @@ def r_par(idx, rep, rule="R-PAR", floor=10):
                 rep.check(good, rule, key, where, "parallel arrays are not updated together from one support triple: %s" % why, why)
 
 
+    # --- call sites: a callee that takes (x, x1, x2) parameter triples must be handed coherent triples
+    for mname in ("distance3d.mpr", "distance3d.gjk._gjk_libccd"):
+        m = idx.module(mname)
+        for f in m.functions.values():
+            unpack = []      # tuple-unpacks of the caller: [names in order]
+            for st in iter_stmts(f.node.body):
+                if isinstance(st, ast.Assign) and isinstance(st.targets[0], ast.Tuple) and all(isinstance(e, ast.Name) for e in st.targets[0].elts):
+                    unpack.append([e.id for e in st.targets[0].elts])
+            fps = f.params()
+            for c in calls(f.node):
+                callee = idx.resolve_call(m, c, f.cls)
+                if callee is None or not hasattr(callee, "params") or callee.module.name not in ("distance3d.mpr", "distance3d.gjk._gjk_libccd", "distance3d.minkowski"):
+                    continue
+                cps = [x for x in callee.params() if x != "self"]
+                starts = {i for i in range(len(cps) - 2) if cps[i + 1] == cps[i] + "1" and cps[i + 2] == cps[i] + "2"}
+                # parameter triples the callee stores into one row of (v, v1, v2):   v[k], v1[k], v2[k] = p, p1, p2
+                for st_ in iter_stmts(callee.node.body):
+                    if isinstance(st_, ast.Assign) and isinstance(st_.targets[0], ast.Tuple) and len(st_.targets[0].elts) == 3 and isinstance(st_.value, ast.Tuple) \
+                            and len(st_.value.elts) == 3 and all(isinstance(e, ast.Name) and e.id in cps for e in st_.value.elts):
+                        pos = [cps.index(e.id) for e in st_.value.elts]
+                        if pos == [pos[0], pos[0] + 1, pos[0] + 2]:
+                            starts.add(pos[0])
+                for i in sorted(starts):
+                    if i + 2 >= len(c.args):
+                        continue
+                    a = c.args[i:i + 3]
+                    txt = [u(x) for x in a]
+                    good = False
+                    if all(isinstance(x, ast.Attribute) for x in a):
+                        good = len({u(x.value) for x in a}) == 1 and a[1].attr == a[0].attr + "1" and a[2].attr == a[0].attr + "2"
+                    elif all(isinstance(x, ast.Subscript) and isinstance(x.value, ast.Attribute) for x in a):
+                        good = len({u(x.value.value) for x in a}) == 1 and len({u(x.slice) for x in a}) == 1 \
+                            and a[1].value.attr == a[0].value.attr + "1" and a[2].value.attr == a[0].value.attr + "2"
+                    elif all(isinstance(x, ast.Name) for x in a):
+                        ids = [x.id for x in a]
+                        good = any(ids == up[j:j + 3] for up in unpack for j in range(len(up) - 2)) \
+                            or (all(n in fps for n in ids) and [fps.index(n) for n in ids] == list(range(fps.index(ids[0]), fps.index(ids[0]) + 3)))
+                    key = "%s|call %s(%s..)" % (f.key, callee.name, cps[i])
+                    rep.check(good, rule, key, "%s:%d" % (m.relpath, c.lineno),
+                              "%s is handed (%s) for its (%s, %s, %s) parameters: the three values do not come from ONE support triple / one portal row, "
+                              "so the pre-image arrays v1/v2 go out of step with v (the contact position is then interpolated from the wrong points)"
+                              % (callee.name, ", ".join(txt), cps[i], cps[i + 1], cps[i + 2]), "coherent triple (%s)" % ", ".join(txt))
+
+
 def r_bary(idx, rep, rule="R-BARY"):
     rep.rule(rule, "calculate_closest_points applies the weights computed for (Y[0],...,Y[k]) to P[0..k] and to Q[0..k] in "
                    "the same order with the same weight variables", floor=3)
